@@ -1,8 +1,532 @@
-//! C12 — generator and driver of the real API.
+//! C12 — indexed FASTA random access.
+//!
+//! `c12 <file hex> <fai hex> cuts:<n1,n2,…> sched:<s1,s2,…> <op>;<op>;… => <run>|<run>|…`
+//!
+//! One case = one FASTA file + its `.fai` text (computed here, independently of rust-bio) + a history of
+//! operations on ONE `IndexedReader`.  The history is run once per entry of `cuts` on a fresh reader over
+//! `file[..n]` (n = file length → untruncated).  Below the reader's internal `BufReader` sits a `Fragmenting`
+//! reader whose `read()` sizes follow `sched` cyclically, restarting at every seek.
+//!
+//! ops (fields `:`-separated):
+//!   `fn:<name hex>:<start>:<stop>:<rd>`   fetch by name        `fr:<rid>:<start>:<stop>:<rd>`  fetch_by_rid
+//!   `fa:<name hex>:<rd>`                  fetch_all            `far:<rid>:<rd>`                fetch_all_by_rid
+//!   `rd:<rd>`                             read without a (new) fetch
+//! `<rd>` = `r` (`read` into a buffer) | `i` (`read_iter`, drained) | `p<k>` (`read_iter`, k items taken, then dropped)
+//!
+//! observation per op: `ok:<hex>` | `err:<class>` | (iterator) `err:<class>:<hex of the bytes yielded before>`
 use crate::util::*;
+use bio::io::fasta::IndexedReader;
+use std::io::{self, Cursor};
 
-pub fn gen(_tier: &str, _rng: &mut Rng, _out: &mut Vec<String>) {}
+#[path = "fragio.rs"]
+mod fragio;
+use fragio::Fragmenting;
 
-pub fn exec(_toks: &[&str]) -> Result<String, String> {
-    Err("unimplemented".into())
+fn err_class(e: &io::Error) -> String {
+    let m = e.to_string();
+    let c = if e.kind() == io::ErrorKind::UnexpectedEof || m.contains("truncated") {
+        "eof"
+    } else if m.contains("Unknown sequence name") {
+        "name"
+    } else if m.contains("Invalid record index") {
+        "rid"
+    } else if m.contains("out of bounds") {
+        "oob"
+    } else if m.contains("Invalid query interval") {
+        "interval"
+    } else if m.contains("No sequence fetched") {
+        "nofetch"
+    } else {
+        "other"
+    };
+    c.to_string()
+}
+
+type Rdr = IndexedReader<Fragmenting<Cursor<Vec<u8>>>>;
+
+fn do_read(r: &mut Rdr, rd: &str) -> Result<String, String> {
+    if rd == "r" {
+        let mut seq = vec![0xEEu8; 3]; // stale content must be cleared by `read`
+        return Ok(match r.read(&mut seq) {
+            Ok(()) => format!("ok:{}", hex(&seq)),
+            Err(e) => format!("err:{}", err_class(&e)),
+        });
+    }
+    let limit: Option<usize> = if rd == "i" {
+        None
+    } else if let Some(k) = rd.strip_prefix('p') {
+        Some(parse::<usize>(k)?)
+    } else {
+        return Err(format!("bad read mode {}", rd));
+    };
+    Ok(match r.read_iter() {
+        Err(e) => format!("err:{}:-", err_class(&e)),
+        Ok(it) => {
+            let mut got: Vec<u8> = vec![];
+            let mut err: Option<String> = None;
+            let mut n = 0usize;
+            for item in it {
+                if let Some(l) = limit {
+                    if n >= l {
+                        break;
+                    }
+                }
+                n += 1;
+                match item {
+                    Ok(b) => got.push(b),
+                    Err(e) => {
+                        // keep draining: after an error the iterator must end (a second item would be a defect)
+                        if err.is_none() {
+                            err = Some(err_class(&e));
+                        } else {
+                            err = Some("repeated".into());
+                        }
+                    }
+                }
+                if n > (1 << 26) {
+                    err = Some("endless".into());
+                    break;
+                }
+            }
+            match err {
+                None => format!("ok:{}", hex(&got)),
+                Some(c) => format!("err:{}:{}", c, hex(&got)),
+            }
+        }
+    })
+}
+
+fn run_ops(file: &[u8], fai: &[u8], sched: &[usize], ops: &[&str]) -> Result<String, String> {
+    let rd = Fragmenting::new(Cursor::new(file.to_vec()), sched.to_vec(), true);
+    let mut r = match IndexedReader::new(rd, Cursor::new(fai.to_vec())) {
+        Ok(r) => r,
+        Err(_) => return Ok("err:index".into()),
+    };
+    let mut outs: Vec<String> = vec![];
+    for op in ops {
+        let f: Vec<&str> = op.split(':').collect();
+        let name = |h: &str| -> Result<String, String> {
+            String::from_utf8(unhex(h)?).map_err(|_| "name not utf8".to_string())
+        };
+        let (fetched, rdm): (io::Result<()>, &str) = match (f[0], f.len()) {
+            ("fn", 5) => (r.fetch(&name(f[1])?, parse::<u64>(f[2])?, parse::<u64>(f[3])?), f[4]),
+            ("fr", 5) => (r.fetch_by_rid(parse::<usize>(f[1])?, parse::<u64>(f[2])?, parse::<u64>(f[3])?), f[4]),
+            ("fa", 3) => (r.fetch_all(&name(f[1])?), f[2]),
+            ("far", 3) => (r.fetch_all_by_rid(parse::<usize>(f[1])?), f[2]),
+            ("rd", 2) => (Ok(()), f[1]),
+            _ => return Err(format!("bad op {}", op)),
+        };
+        match fetched {
+            Err(e) => {
+                // validate the read mode all the same so that malformed lines are rejected uniformly
+                if !(rdm == "r" || rdm == "i" || (rdm.starts_with('p') && rdm[1..].parse::<usize>().is_ok())) {
+                    return Err(format!("bad read mode {}", rdm));
+                }
+                outs.push(format!("err:{}", err_class(&e)))
+            }
+            Ok(()) => outs.push(do_read(&mut r, rdm)?),
+        }
+    }
+    Ok(join(&outs, ";"))
+}
+
+pub fn exec(toks: &[&str]) -> Result<String, String> {
+    if toks.len() != 5 {
+        return Err("arity".into());
+    }
+    let file = unhex(toks[0])?;
+    let fai = unhex(toks[1])?;
+    let cuts: Vec<usize> = parse_list(kv(toks[2], "cuts")?, ',')?;
+    let sched: Vec<usize> = parse_list(kv(toks[3], "sched")?, ',')?;
+    if cuts.is_empty() || sched.is_empty() || sched.iter().any(|&s| s == 0) {
+        return Err("cuts/sched".into());
+    }
+    let ops: Vec<&str> = split_list(toks[4], ';');
+    if ops.is_empty() {
+        return Err("no ops".into());
+    }
+    let mut runs = vec![];
+    for &c in &cuts {
+        if c > file.len() {
+            return Err("cut beyond file".into());
+        }
+        runs.push(run_ops(&file[..c], &fai, &sched, &ops)?);
+    }
+    Ok(runs.join("|"))
+}
+
+// ------------------------------------------------------------------------------------------------ generator
+
+struct RecSpec {
+    name: Vec<u8>,
+    desc: Option<Vec<u8>>,
+    seq: Vec<u8>,
+    w: usize,
+    crlf: bool,
+}
+
+struct Built {
+    file: Vec<u8>,
+    fai: Vec<u8>,
+    /// per record: (len, offset, line_bases, line_bytes)
+    idx: Vec<(usize, usize, usize, usize)>,
+}
+
+/// FASTA text + `.fai` text, computed without rust-bio.  `trail` = the last sequence line of the file keeps its
+/// terminator; `fai_crlf` = the `.fai` lines end in CRLF.
+fn build(recs: &[RecSpec], trail: bool, fai_crlf: bool) -> Built {
+    let mut file = vec![];
+    let mut fai = vec![];
+    let mut idx = vec![];
+    for (ri, r) in recs.iter().enumerate() {
+        let eol: &[u8] = if r.crlf { b"\r\n" } else { b"\n" };
+        file.push(b'>');
+        file.extend_from_slice(&r.name);
+        if let Some(d) = &r.desc {
+            file.push(b' ');
+            file.extend_from_slice(d);
+        }
+        file.extend_from_slice(eol);
+        let off = file.len();
+        let nlines = (r.seq.len() + r.w - 1) / r.w;
+        for (li, ch) in r.seq.chunks(r.w).enumerate() {
+            file.extend_from_slice(ch);
+            let last = ri + 1 == recs.len() && li + 1 == nlines;
+            if !last || trail {
+                file.extend_from_slice(eol);
+            }
+        }
+        idx.push((r.seq.len(), off, r.w, r.w + eol.len()));
+        fai.extend_from_slice(&r.name);
+        fai.extend_from_slice(format!("\t{}\t{}\t{}\t{}", r.seq.len(), off, r.w, r.w + eol.len()).as_bytes());
+        fai.extend_from_slice(if fai_crlf { b"\r\n" } else { b"\n" });
+    }
+    Built { file, fai, idx }
+}
+
+const NAMECH: &[u8] = b"abcdefghijklmnopqrstuvwxyzABCDEFGHIJKLMNOPQRSTUVWXYZ0123456789_.|-";
+const SEQCH: &[u8] = b"ACGTNacgtnRYKM*-";
+
+fn gen_recs(rng: &mut Rng, big: bool) -> Vec<RecSpec> {
+    let n = if big { 1 + rng.below(2) } else { 1 + rng.below(4) };
+    let mut recs: Vec<RecSpec> = vec![];
+    let file_crlf = rng.chance(1, 2);
+    for i in 0..n {
+        let mut name;
+        loop {
+            let l = 1 + rng.below(6);
+            name = rng.seq(NAMECH, l);
+            if !recs.iter().any(|r| r.name == name) {
+                break;
+            }
+        }
+        let w = match rng.below(8) {
+            0 => 1,
+            1 => 2,
+            2 | 3 => 1 + rng.below(8),
+            4 => *rng.pick(&[60usize, 70, 80]),
+            _ => 1 + rng.below(80),
+        };
+        let len = if big && i == 0 {
+            match rng.below(3) {
+                0 => 8192 + rng.below(9000),
+                1 => 3000 + rng.below(27000),
+                _ => w * (8192 / w) + rng.below(3 * w + 1), // the buffer boundary near a line boundary
+            }
+        } else {
+            match rng.below(10) {
+                0 => 0,
+                1 => w,                       // exactly one full line
+                2 => w * (1 + rng.below(4)),  // last line full
+                3 => w * (1 + rng.below(4)) + 1,
+                4 => rng.below(w + 1),
+                _ => rng.below(5 * w + 2).min(400),
+            }
+        };
+        // a sequence in which neighbouring positions differ (a shifted slice is then never equal to the right one)
+        let mut seq = Vec::with_capacity(len);
+        for j in 0..len {
+            let mut c = *rng.pick(SEQCH);
+            if j > 0 && c == seq[j - 1] {
+                c = SEQCH[(SEQCH.iter().position(|&x| x == c).unwrap() + 1) % SEQCH.len()];
+            }
+            seq.push(c);
+        }
+        let dl = 1 + rng.below(8);
+        let desc = if rng.chance(1, 3) { Some(rng.seq(b"abc xyz=1", dl)) } else { None };
+        let desc = desc.map(|d| {
+            let mut d = d;
+            while d.last() == Some(&b' ') {
+                d.pop();
+            }
+            if d.is_empty() {
+                d.push(b'd');
+            }
+            d
+        });
+        // terminators are uniform per record; mostly uniform per file
+        let crlf = if rng.chance(1, 6) { !file_crlf } else { file_crlf };
+        recs.push(RecSpec { name, desc, seq, w, crlf });
+    }
+    recs
+}
+
+fn gen_sched(rng: &mut Rng) -> Vec<usize> {
+    match rng.below(8) {
+        0 => vec![1],
+        1 => vec![100000],
+        2 => vec![1 + rng.below(3)],
+        3 => (0..1 + rng.below(6)).map(|_| 1 + rng.below(4)).collect(),
+        4 => (0..1 + rng.below(6)).map(|_| 1 + rng.below(40)).collect(),
+        5 => vec![1, 100000, 2, 1, 1, 7],
+        6 => (0..2 + rng.below(4)).map(|_| *rng.pick(&[1usize, 2, 13, 64, 511, 512, 513, 8191, 8192, 100000])).collect(),
+        _ => vec![1 + rng.below(200)],
+    }
+}
+
+fn rdmode(rng: &mut Rng, span: usize) -> String {
+    match rng.below(7) {
+        0 | 1 | 2 => "r".into(),
+        3 | 4 | 5 => "i".into(),
+        _ => format!("p{}", rng.below(span + 2)),
+    }
+}
+
+fn offset_of(ix: &(usize, usize, usize, usize), i: usize) -> usize {
+    ix.1 + (i / ix.2) * ix.3 + i % ix.2
+}
+
+/// a valid request on record `rid`
+fn valid_op(rng: &mut Rng, recs: &[RecSpec], rid: usize, start: usize, stop: usize) -> String {
+    let len = recs[rid].seq.len();
+    let rd = rdmode(rng, stop - start);
+    if start == 0 && stop == len && rng.chance(2, 3) {
+        if rng.chance(1, 2) {
+            format!("fa:{}:{}", hex(&recs[rid].name), rd)
+        } else {
+            format!("far:{}:{}", rid, rd)
+        }
+    } else if rng.chance(1, 2) {
+        format!("fn:{}:{}:{}:{}", hex(&recs[rid].name), start, stop, rd)
+    } else {
+        format!("fr:{}:{}:{}:{}", rid, start, stop, rd)
+    }
+}
+
+fn error_op(rng: &mut Rng, recs: &[RecSpec]) -> String {
+    let rid = rng.below(recs.len());
+    let len = recs[rid].seq.len() as u64;
+    let rd = rdmode(rng, 3);
+    match rng.below(7) {
+        0 => {
+            // unknown name: a proper prefix / extension / case change of a known one, or the empty name
+            let mut nm = recs[rid].name.clone();
+            match rng.below(4) {
+                0 => nm.push(b'x'),
+                1 => {
+                    nm.pop();
+                }
+                2 => nm = vec![],
+                _ => nm.insert(0, b'>'),
+            }
+            if recs.iter().any(|r| r.name == nm) {
+                nm = b"no-such-sequence".to_vec();
+            }
+            if rng.chance(1, 2) {
+                format!("fn:{}:0:{}:{}", hex(&nm), len.min(1), rd)
+            } else {
+                format!("fa:{}:{}", hex(&nm), rd)
+            }
+        }
+        1 => {
+            let bad = *rng.pick(&[recs.len(), recs.len() + 1, 1000, usize::MAX]);
+            if rng.chance(1, 2) {
+                format!("fr:{}:0:0:{}", bad, rd)
+            } else {
+                format!("far:{}:{}", bad, rd)
+            }
+        }
+        2 => format!("fr:{}:0:{}:{}", rid, len + 1, rd),
+        3 => format!("fn:{}:{}:{}:{}", hex(&recs[rid].name), len, *rng.pick(&[len + 1, len + 2, u64::MAX]), rd),
+        4 => {
+            // start > stop (both within the record when it is long enough)
+            let a = 1 + rng.below(len as usize + 1) as u64;
+            let b = rng.below(a as usize) as u64;
+            format!("fr:{}:{}:{}:{}", rid, a, b, rd)
+        }
+        5 => format!("fn:{}:{}:{}:{}", hex(&recs[rid].name), len + 1, len + 1, rd),
+        _ => format!("fr:{}:{}:{}:{}", rid, len + 3, len + 1, rd),
+    }
+}
+
+fn span_for(rng: &mut Rng, r: &RecSpec) -> (usize, usize) {
+    let len = r.seq.len();
+    let w = r.w;
+    if len == 0 {
+        return (0, 0);
+    }
+    let (a, b) = match rng.below(10) {
+        0 => (0, len),
+        1 => {
+            // line-aligned on one or both sides
+            let a = (rng.below(len / w + 1) * w).min(len);
+            let b = (a + rng.below(3) * w + rng.below(2) * rng.below(w + 1)).min(len);
+            (a, b)
+        }
+        2 => {
+            let a = rng.below(len + 1);
+            (a, a) // empty interval, including start = stop = len
+        }
+        3 => {
+            // ends just before / at / after a line end
+            let l = 1 + rng.below(len / w + 1);
+            let b = (l * w + rng.below(3)).saturating_sub(1).min(len);
+            let a = rng.below(b + 1);
+            (a, b)
+        }
+        4 => (len - 1 - rng.below(len.min(3)), len),
+        5 => {
+            let a = rng.below(len);
+            (a, a + 1)
+        }
+        _ => {
+            let a = rng.below(len + 1);
+            let b = a + rng.below(len - a + 1);
+            (a, b)
+        }
+    };
+    (a.min(b), b)
+}
+
+fn push_case(out: &mut Vec<String>, b: &Built, cuts: &[usize], sched: &[usize], ops: &[String]) {
+    out.push(format!(
+        "{} {} cuts:{} sched:{} {}",
+        hex(&b.file),
+        hex(&b.fai),
+        join(cuts, ","),
+        join(sched, ","),
+        ops.join(";")
+    ));
+}
+
+pub fn gen(tier: &str, rng: &mut Rng, out: &mut Vec<String>) {
+    let thorough = tier == "thorough";
+    let (n_small, n_big, n_trunc, n_all) = if thorough { (5000, 120, 3000, 600) } else { (420, 10, 260, 50) };
+    // 1. small files, random histories (valid requests, error requests, partial iterations), untruncated
+    for i in 0..n_small {
+        let recs = gen_recs(rng, false);
+        let b = build(&recs, rng.chance(1, 2), rng.chance(1, 4));
+        let sched = gen_sched(rng);
+        let mut ops: Vec<String> = vec![];
+        if i % 5 == 0 {
+            ops.push(format!("rd:{}", rdmode(rng, 2))); // read before any fetch
+        }
+        let nops = if thorough { 20 + rng.below(60) } else { 10 + rng.below(30) };
+        for _ in 0..nops {
+            if rng.chance(1, 7) {
+                ops.push(error_op(rng, &recs));
+            } else {
+                let rid = rng.below(recs.len());
+                let (a, s) = span_for(rng, &recs[rid]);
+                ops.push(valid_op(rng, &recs, rid, a, s));
+            }
+        }
+        push_case(out, &b, &[b.file.len()], &sched, &ops);
+    }
+    // 2. all (start, stop) of one short record, both read modes
+    for _ in 0..n_all {
+        let recs = gen_recs(rng, false);
+        let b = build(&recs, rng.chance(1, 2), false);
+        let rid = rng.below(recs.len());
+        let len = recs[rid].seq.len().min(24);
+        let sched = gen_sched(rng);
+        let mut ops = vec![];
+        for a in 0..=len {
+            for s in a..=len {
+                let m = if (a + s) % 2 == 0 { "r" } else { "i" };
+                ops.push(format!("fr:{}:{}:{}:{}", rid, a, s, m));
+            }
+        }
+        push_case(out, &b, &[b.file.len()], &sched, &ops);
+    }
+    // 3. long records: the 8 KiB BufReader refills inside a request
+    for _ in 0..n_big {
+        let recs = gen_recs(rng, true);
+        let b = build(&recs, rng.chance(1, 2), false);
+        let sched = match rng.below(4) {
+            0 => vec![100000],
+            1 => vec![8192, 1, 1, 3],
+            2 => vec![1 + rng.below(700)],
+            _ => gen_sched(rng),
+        };
+        let mut ops = vec![];
+        for k in 0..(if thorough { 30 } else { 12 }) {
+            let rid = if k % 4 == 3 { rng.below(recs.len()) } else { 0 };
+            let r = &recs[rid];
+            let len = r.seq.len();
+            let (a, s) = if k == 0 {
+                (0, len)
+            } else if len > 9000 && k % 3 == 1 {
+                // a span that straddles the first buffer refill after the seek
+                let a = rng.below(len - 8500);
+                (a, (a + 8000 + rng.below(600)).min(len))
+            } else {
+                span_for(rng, r)
+            };
+            ops.push(valid_op(rng, &recs, rid, a, s));
+        }
+        push_case(out, &b, &[b.file.len()], &sched, &ops);
+    }
+    // 4. truncation: the file is cut at every offset inside (and just around) the span of the last request
+    for _ in 0..n_trunc {
+        let recs = gen_recs(rng, false);
+        let b = build(&recs, rng.chance(1, 2), false);
+        let sched = gen_sched(rng);
+        let rid = rng.below(recs.len());
+        let (a, s) = span_for(rng, &recs[rid]);
+        let mut ops = vec![];
+        for _ in 0..rng.below(3) {
+            let r2 = rng.below(recs.len());
+            let (a2, s2) = span_for(rng, &recs[r2]);
+            ops.push(valid_op(rng, &recs, r2, a2, s2));
+        }
+        ops.push(valid_op(rng, &recs, rid, a, s));
+        let lo = offset_of(&b.idx[rid], a).saturating_sub(2).min(b.file.len());
+        let hi = (offset_of(&b.idx[rid], s) + 3).min(b.file.len());
+        let mut cuts: Vec<usize> = (lo..=hi).collect();
+        if cuts.len() > 70 {
+            let keep: Vec<usize> = (0..70).map(|_| cuts[rng.below(cuts.len())]).collect();
+            cuts = keep;
+            cuts.sort();
+            cuts.dedup();
+        }
+        push_case(out, &b, &cuts, &sched, &ops);
+    }
+    if thorough {
+        // exhaustive small scope: widths 1..5 × lengths 0..12 × all (start, stop) × both terminators × trailing newline
+        for w in 1..=5usize {
+            for len in 0..=12usize {
+                for crlf in [false, true] {
+                    for trail in [false, true] {
+                        let seq: Vec<u8> = (0..len).map(|i| b"ACGTNRYKMSWBD"[i % 13]).collect();
+                        let recs = vec![
+                            RecSpec { name: b"p".to_vec(), desc: None, seq: b"TTGCA".to_vec(), w: 2, crlf },
+                            RecSpec { name: b"q".to_vec(), desc: Some(b"d e".to_vec()), seq, w, crlf },
+                        ];
+                        let b = build(&recs, trail, crlf);
+                        for (si, sched) in [vec![1usize], vec![2, 1, 3], vec![100000]].iter().enumerate() {
+                            let mut ops = vec![];
+                            for a in 0..=len {
+                                for s in a..=len {
+                                    let m = if (a + s + si) % 2 == 0 { "r" } else { "i" };
+                                    ops.push(format!("fr:1:{}:{}:{}", a, s, m));
+                                }
+                            }
+                            push_case(out, &b, &[b.file.len()], sched, &ops);
+                        }
+                    }
+                }
+            }
+        }
+    }
 }
